@@ -134,9 +134,14 @@ def w4_source(p):
 SOURCES = {"W1": w1_source, "W2": w2_source, "W3": w3_source, "W4": w4_source, "W5": w1_source, "W6": w1_source}
 
 
-def w6_declaration(p, name):
+def w6_declaration(p, name, how="class"):
     """A class declared by a running thread; its annotations are spelled exactly like A's, so typing's alias cache hands it
     the very ForwardRef objects that A's first parse is evaluating at that moment."""
+    if how == "fn_kwargs":
+        # the same spelling as the type of the variadic keyword arguments of a function
+        return "\n".join(["@utype.parse", f"def {name}(z: int = 0, **extra: {p['bs_ann']}):", "    return [z, sorted(extra)]", ""])
+    if how == "cls_addition":
+        return "\n".join([f"class {name}(Schema):", f"    __options__ = Options(addition={p['bs_ann']})", "    z: int = 0", ""])
     return "\n".join([
         f"class {name}(Schema):",
         "    z: int = 0",
@@ -184,10 +189,14 @@ def run_op(mod, op, params):
     if k == "local":
         return mod.use(op["u"])
     if k == "declare":
-        kernel.exec_into(mod, w6_declaration(params, op["name"]))
+        how = op.get("how", "class")
+        kernel.exec_into(mod, w6_declaration(params, op["name"], how))
         cls = getattr(mod, op["name"])
         if op.get("use") is None:
             return ["declared"]
+        if how != "class":
+            extra = {"e1": _bs_value(params, [{"y": 3}])}
+            return cls(z=1, **extra) if how == "fn_kwargs" else dict(cls(z=1, **extra))
         data = dict(op["use"])
         if "bs" in data:
             data["bs"] = _bs_value(params, data["bs"])
@@ -291,7 +300,7 @@ def generate(rng, tier):
         if sc == "W6":
             # one thread declares (and maybe uses) new classes while the others make their first parses
             t = rng.randrange(nthreads)
-            plan["threads"][t] = [{"op": "declare", "name": "N%d_%d" % (t, i),
+            plan["threads"][t] = [{"op": "declare", "name": "N%d_%d" % (t, i), "how": rng.choice(["class", "class", "fn_kwargs", "cls_addition"]),
                                    "use": rng.choice([None, {"z": 1, "b": {"y": 1}}, {"bs": [{"y": 2}]}])}
                                   for i in range(max(1, counts[t]))]
     elif sc == "W2":
